@@ -21,9 +21,9 @@ import (
 // randomised select, hence many repetitions.
 
 type idleRaceCase struct {
-	K      int `json:"idle_frames"`
-	J      int `json:"activity_after_frames"`
-	Poses  int `json:"pose_updates"`
+	K      int  `json:"idle_frames"`
+	J      int  `json:"activity_after_frames"`
+	Poses  int  `json:"pose_updates"`
 	Direct bool `json:"client_writes_at_deadline"`
 }
 
